@@ -45,29 +45,61 @@ pub(crate) mod verif_zone_prune {
     pub(crate) fn summarises(min: &Value, max: &Value, v: &Value) -> bool {
         compare_values(v, min) != Some(Ordering::Less) && compare_values(v, max) != Some(Ordering::Greater)
     }
-    fn column(min: Value, max: Value, nulls: u64, rows: u64) -> PropertyColumn<NodeId> {
-        let mut col: PropertyColumn<NodeId> = PropertyColumn::new();
-        col.zone_map = ZoneMapEntry { min: Some(min), max: Some(max), null_count: nulls, row_count: rows, bloom_filter: None };
-        col
+    /// A column of which only the fields the contracted methods read/write exist (zone_map, zone_map_dirty); the value map,
+    /// compression state etc. stay uninitialised and are never touched (building a real column needs hash-map seeding: ahash
+    /// RandomState is outside Kani).  It lives on the harness's STACK: behind a leaked Box CBMC loses the constant enum
+    /// discriminants and unwinds Value's recursive drop glue for ever (measured: 0.7 s vs > 5 min).
+    macro_rules! column { ($col:ident, $zm:expr) => {
+        let mut __m = std::mem::MaybeUninit::<PropertyColumn<NodeId>>::uninit();
+        let __p = __m.as_mut_ptr();
+        let $col: &mut PropertyColumn<NodeId> = unsafe {
+            std::ptr::addr_of_mut!((*__p).zone_map).write($zm);
+            std::ptr::addr_of_mut!((*__p).zone_map_dirty).write(false);
+            &mut *__p
+        };
+    }; }
+    fn entry(min: Value, max: Value, nulls: u64, rows: u64) -> ZoneMapEntry {
+        ZoneMapEntry { min: Some(min), max: Some(max), null_count: nulls, row_count: rows, bloom_filter: None }
     }
 
     // ---- pruning never removes a row the evaluator would return (C10, C14) ----
-    fn prune(kmin: u8, kmax: u8, kv: u8, kq: u8) {
+    // group 0: Eq / Ne (equality semantics)      group 1: Lt / Le / Gt / Ge (order semantics)
+    // exact == true restricts the payloads to the sub-domain on which i64 <-> f64 conversion is exact (|i| <= 2^53) and
+    // float equality is not decided by the evaluator's absolute epsilon (and no NaN is stored): the KNOWN defect classes are excluded there, so
+    // any other disagreement (e.g. a swapped comparison) still fails an obligation that passes on the unchanged tree.
+    fn as_f(v: &Value) -> Option<f64> { match v { Value::Int64(i) => Some(*i as f64), Value::Float64(f) => Some(*f), _ => None } }
+    fn in_exact_domain(v: &Value) -> bool { match v { Value::Int64(i) => *i >= -(1i64 << 53) && *i <= (1i64 << 53), _ => true } }
+    fn prune(group: u8, exact: bool, kmin: u8, kmax: u8, kv: u8, kq: u8) {
         let (min, max, v, q) = (val(kmin), val(kmax), val(kv), val(kq));
         kani::assume(summarises(&min, &max, &v));
+        if exact {
+            kani::assume(in_exact_domain(&min) && in_exact_domain(&max) && in_exact_domain(&v) && in_exact_domain(&q));
+            if group == 0 {
+                if let (Some(a), Some(b)) = (as_f(&v), as_f(&q)) { kani::assume(((a - b).abs() < f64::EPSILON) == (a == b)); }   // the evaluator's epsilon test decides exactly like ==
+                if let Value::Float64(f) = &v { kani::assume(!f.is_nan()); }     // third known class: a stored NaN vs `<>` pruning
+            }
+        }
         let (nulls, rows): (u64, u64) = (kani::any(), kani::any());
         kani::assume(nulls < rows);                      // v is a stored non-null value
-        let mut col = column(min, max, nulls, rows);
+        column!(col, entry(min, max, nulls, rows));
         col.zone_map_dirty = kani::any();
-        let code: u8 = kani::any::<u8>() % 6;
-        let says = filter_says(&v, code, &q);
-        let r = col.might_match(op_of(code), &q);
-        if says { assert!(r, "zone-map pruning drops a row the filter returns"); }
-        kani::cover!(says);
-        std::mem::forget(col); std::mem::forget(v); std::mem::forget(q);
+        // one CONCRETE operator per call: constant propagation then prunes the string / regex / pow arms of eval_binary_op
+        if group == 0 {
+            prune_op(0, col, &v, &q); prune_op(1, col, &v, &q);
+        } else {
+            prune_op(2, col, &v, &q); prune_op(3, col, &v, &q); prune_op(4, col, &v, &q); prune_op(5, col, &v, &q);
+        }
+        kani::cover!(true);
+        std::mem::forget(v); std::mem::forget(q);
     }
-    macro_rules! prune { ($n:ident, $a:expr, $b:expr, $c:expr, $d:expr) => {
-        #[kani::proof] #[kani::stub(regex::Regex::new, regex_new_stub)] #[kani::stub(regex::Regex::is_match, regex_is_match_stub)] fn $n() { prune($a, $b, $c, $d); } }; }
+    fn prune_op(code: u8, col: &PropertyColumn<NodeId>, v: &Value, q: &Value) -> bool {
+        let says = filter_says(v, code, q);
+        let r = col.might_match(op_of(code), q);
+        if says { assert!(r, "zone-map pruning drops a row the filter returns"); }
+        says
+    }
+    macro_rules! prune { ($n:ident, $g:expr, $x:expr, $a:expr, $b:expr, $c:expr, $d:expr) => {
+        #[kani::proof] #[kani::stub(regex::Regex::new, regex_new_stub)] #[kani::stub(regex::Regex::is_match, regex_is_match_stub)] fn $n() { prune($g, $x, $a, $b, $c, $d); } }; }
     //@GENERATED-PRUNE@
 
     // a NULL probe and an all-NULL column
@@ -75,19 +107,18 @@ pub(crate) mod verif_zone_prune {
     fn prune_null_probe() {
         let (nulls, rows): (u64, u64) = (kani::any(), kani::any());
         kani::assume(nulls <= rows);
-        let col = column(val(0), val(0), nulls, rows);
+        column!(col, entry(val(0), val(0), nulls, rows));
         // a stored NULL exists iff null_count > 0 (established by the insert path, see step harnesses)
         if nulls > 0 { assert!(col.might_match(CompareOp::Eq, &Value::Null)); }
-        std::mem::forget(col);
     }
     // stale summaries stay conservative (C14): a dirty zone map never prunes
     #[kani::proof]
     fn dirty_never_prunes() {
-        let mut col = column(val(0), val(1), kani::any(), kani::any());
+        column!(col, entry(val(0), val(1), kani::any(), kani::any()));
         col.zone_map_dirty = true;
         let q = val(kani::any::<u8>() % 4);
         assert!(col.might_match(any_op(), &q));
-        std::mem::forget(col); std::mem::forget(q);
+        std::mem::forget(q);
     }
 
     // ---- the summary invariant is inductive under the real insert path ----
@@ -96,7 +127,7 @@ pub(crate) mod verif_zone_prune {
         kani::assume(summarises(&min, &max, &v));
         let (nulls, rows): (u64, u64) = (kani::any(), kani::any());
         kani::assume(nulls <= rows && rows < u64::MAX);
-        let mut col = column(min, max, nulls, rows);
+        column!(col, entry(min, max, nulls, rows));
         col.update_zone_map_on_insert(&w);
         let (min2, max2) = (col.zone_map.min.as_ref().unwrap(), col.zone_map.max.as_ref().unwrap());
         assert!(summarises(min2, max2, &v), "an earlier value fell out of the summary");
@@ -104,14 +135,14 @@ pub(crate) mod verif_zone_prune {
         assert!(col.zone_map.row_count == rows + 1);
         assert!(col.zone_map.null_count == nulls + (matches!(w, Value::Null) as u64));
         kani::cover!(true);
-        std::mem::forget(col); std::mem::forget(v); std::mem::forget(w);
+        std::mem::forget(v); std::mem::forget(w);
     }
     macro_rules! step { ($n:ident, $a:expr, $b:expr, $c:expr, $d:expr) => { #[kani::proof] fn $n() { step($a, $b, $c, $d); } }; }
     //@GENERATED-STEP@
 
     fn base(kw: u8) {
         let w = val(kw);
-        let mut col: PropertyColumn<NodeId> = PropertyColumn::new();
+        column!(col, ZoneMapEntry::new());
         col.update_zone_map_on_insert(&w);
         if matches!(w, Value::Null) {
             assert!(col.zone_map.min.is_none() && col.zone_map.max.is_none() && col.zone_map.null_count == 1 && col.zone_map.row_count == 1);
@@ -120,7 +151,7 @@ pub(crate) mod verif_zone_prune {
             assert!(col.zone_map.null_count == 0 && col.zone_map.row_count == 1);
         }
         kani::cover!(true);
-        std::mem::forget(col); std::mem::forget(w);
+        std::mem::forget(w);
     }
     macro_rules! base { ($n:ident, $a:expr) => { #[kani::proof] fn $n() { base($a); } }; }
     base!(base_int, 0); base!(base_float, 1); base!(base_bool, 2); base!(base_null, 3);
@@ -151,4 +182,23 @@ mod verif_range_prune {
     }
     macro_rules! range { ($n:ident, $a:expr, $b:expr, $c:expr, $d:expr, $e:expr) => { #[kani::proof] fn $n() { range($a, $b, $c, $d, $e); } }; }
     //@GENERATED-RANGE@
+
+    // ---- the range path answers exactly what the expression evaluator answers (C10: range path == plain scan + filter) ----
+    use crate::execution::operators::verif_filter_oracle::{filter_says, regex_is_match_stub, regex_new_stub};
+    fn agrees(kv: u8, klo: u8, khi: u8) {
+        let v = val(kv);
+        let lo = if klo == 9 { None } else { Some(val(klo)) };
+        let hi = if khi == 9 { None } else { Some(val(khi)) };
+        let (li, hi_incl): (bool, bool) = (kani::any(), kani::any());
+        let by_range = value_in_range(&v, lo.as_ref(), hi.as_ref(), li, hi_incl);
+        // `x >= lo` / `x > lo` and `x <= hi` / `x < hi` as the filter evaluates them (operator codes concrete per branch)
+        let lower_ok = match &lo { None => true, Some(l) => if li { filter_says(&v, 5, l) } else { filter_says(&v, 4, l) } };
+        let upper_ok = match &hi { None => true, Some(h) => if hi_incl { filter_says(&v, 3, h) } else { filter_says(&v, 2, h) } };
+        assert!(by_range == (lower_ok && upper_ok), "find_nodes_in_range and the filter disagree on this row");
+        kani::cover!(by_range);
+        std::mem::forget(v); std::mem::forget(lo); std::mem::forget(hi);
+    }
+    macro_rules! agrees { ($n:ident, $a:expr, $b:expr, $c:expr) => {
+        #[kani::proof] #[kani::stub(regex::Regex::new, regex_new_stub)] #[kani::stub(regex::Regex::is_match, regex_is_match_stub)] fn $n() { agrees($a, $b, $c); } }; }
+    //@GENERATED-AGREES@
 }
